@@ -13,8 +13,12 @@ RULE = ('Enumerated hostile inputs, each followed by a probe that the trace spec
         'rejection): (a) every supported command with every numeric/size/time argument position replaced by every boundary value '
         '(0, +-1, i64/u64/usize/isize min and max and neighbours, huge digit strings, 1e308, nan, inf, empty) against keys of '
         'every type; (b) malformed frames: all byte strings up to a bounded length over the protocol alphabet, absurd declared '
-        'lengths, deep nesting, every truncation of valid frames, each on its own connection; (c) scripts and transactions '
-        'carrying the same. The spec contributes the acceptance rule only: nothing is decided about inputs outside the '
+        'lengths, deep nesting, every truncation of valid frames, each on its own connection; (c) the same commands and boundary values through '
+        'redis.call / redis.pcall (the script executor parses and executes commands on its own), the commands and options only that path '
+        'implements (GETBIT/SETBIT/BITCOUNT, ZREMRANGEBY*, SET GET/KEEPTTL, XREAD BLOCK, ...), and scripts with hostile return values, error '
+        'objects and call arguments (cyclic and 100000-deep tables, non-finite numbers, non-string arguments, megabyte strings); (d) commands taking several keys, '
+        'or one key twice, x the state of each key (live, past its deadline but unswept, absent, other type) x shard placement (same shard / different shards, both orders): '
+        'a command thread waiting for a lock it holds stops answering. The spec contributes the acceptance rule only: nothing is decided about inputs outside the '
         'enumeration (no coverage feedback). Excluded on purpose: SHUTDOWN, SLEEP, CLIENT PAUSE/KILL, DEBUG, REPLICAOF/SLAVEOF '
         'to unreachable hosts, non-terminating scripts. Non-trivial = a hostile input; distinct = distinct input.')
 ASSUMPTIONS = ['hostile commands run in database 0; the sentinel lives in database 15, which no enumerated command addresses',
@@ -24,7 +28,7 @@ I64 = 2 ** 63
 BOUND = [b'0', b'1', b'-1', b'2', b'-2', str(I64 - 1).encode(), str(I64).encode(), str(-I64).encode(), str(-I64 - 1).encode(),
          str(2 ** 64 - 1).encode(), str(2 ** 64).encode(), str(2 ** 32).encode(), str(2 ** 31 - 1).encode(), str(-2 ** 31).encode(),
          b'4294967295', b'536870912', b'536870911', b'999999999999999999999999999999', b'-999999999999999999999999999999',
-         b'1e308', b'-1e308', b'1e309', b'nan', b'-nan', b'inf', b'-inf', b'', b' ', b'0x10', b'1.5', b'-0', b'+1', b'9' * 100]
+         b'1e308', b'-1e308', b'1e309', b'nan', b'-nan', b'inf', b'-inf', b'', b' ', b'0x10', b'1.5', b'-0', b'+1', b'9' * 100, b'5', b'-5', b'7', b'8', b'9']
 
 K = b'K'
 # command -> (template, positions that carry a number/size/index/count/time/cursor/score)
@@ -52,7 +56,7 @@ CMDS = [
     ([b'CLIENT', b'LIST'], []), ([b'INFO', N], [1]), ([b'OBJECT', b'ENCODING', K], []), ([b'LASTSAVE'], []), ([b'COMMAND'], []), ([b'DBSIZE'], []),
     ([b'APPEND', K, b'x'], []), ([b'STRLEN', K], []), ([b'SADD', K, N], [2]), ([b'RPUSH', K, N], [2]), ([b'PUBLISH', b'ch', N], [2]),
 ]
-TYPES = [None, [b'SET', K, b'10'], [b'RPUSH', K, b'a', b'b', b'c'], [b'SADD', K, b'a', b'b', b'c'], [b'HSET', K, b'f', b'1'],
+TYPES = [None, [b'SET', K, b'1234567890'], [b'RPUSH', K, b'a', b'b', b'c'], [b'SADD', K, b'a', b'b', b'c'], [b'HSET', K, b'f', b'1'],
          [b'ZADD', K, b'1', b'a', b'2', b'b'], [b'XADD', K, b'1-1', b'f', b'v']]
 
 ALPHA = [b'*', b'$', b'+', b'-', b':', b'0', b'1', b'2', b'\r', b'\n', b'P', b'G', b'%', b'~', b'_', b'#', b',']
@@ -63,6 +67,7 @@ class Probe:
         self.ctx, self.srv, self.tr = ctx, srv, tr
         self.s = Session(srv, tr, reply_timeout=5.0)
         self.n = 0
+        self.wedged = False
 
     def setup(self):
         c = self.s.open()
@@ -73,15 +78,22 @@ class Probe:
         self.s.close(c)
 
     def probe(self):
-        """A fresh connection is served normally and the stored data is intact."""
+        """A fresh connection is served normally and the stored data is intact.  Returns False when the server does not
+        answer at all (wedged): the recorded probe is a rejection and the enumeration stops there."""
         self.n += 1
         c = self.s.open()
-        self.s.cmd(c, [b'PING'])
+        r = self.s.cmd(c, [b'PING'])
+        if r[0] in ('none', 'closed'):
+            self.wedged = True
+            if c in self.s.clients:
+                self.s.close(c)
+            return False
         self.s.cmd(c, [b'SELECT', b'15'])
         self.s.cmd(c, [b'GET', b'sentinel'])
         self.s.cmd(c, [b'LRANGE', b'sentinel-list', b'0', b'-1'])
         if c in self.s.clients:
             self.s.close(c)
+        return True
 
 
 ANCHOR = [b'0', b'-1', b'1', str(I64 - 1).encode(), str(-I64).encode()]
@@ -135,14 +147,195 @@ def hostile_commands(ctx, srv, tr, pr):
                 if r[0] in ('none', 'closed', 'garbage') or name in (b'BLPOP', b'BRPOP', b'SELECT'):
                     cl.close()
                     cl = None
-                if cases % every == 0 or r[0] in ('closed',):
-                    pr.probe()
+                if cases % every == 0 or r[0] in ('closed',) or (r[0] == 'none' and name not in (b'BLPOP', b'BRPOP')):
+                    if not pr.probe():
+                        return cases
                 if not srv.alive():
                     tr.emit({'k': 'crash', 'status': srv.exit_status(), 'after': [list(a[:80]) for a in argv]})
                     return cases
             if cl is not None:
                 cl.close()
                 cl = None
+    pr.probe()
+    return cases
+
+
+# commands that only the script executor implements, and options only it parses (reachable through redis.call alone)
+SCRIPT_ONLY = [
+    ([b'GETBIT', K, N], [2]), ([b'SETBIT', K, N, b'1'], [2]), ([b'SETBIT', K, b'7', N], [3]), ([b'BITCOUNT', K, N, N], [2, 3]), ([b'BITCOUNT', K], []),
+    ([b'ZREMRANGEBYRANK', K, N, N], [2, 3]), ([b'ZREMRANGEBYSCORE', K, N, N], [2, 3]), ([b'ZREMRANGEBYLEX', K, N, N], [2, 3]),
+    ([b'ZREMRANGEBYLEX', K, b'[a', b'[z'], []), ([b'TIME'], []), ([b'INFO'], []), ([b'CONFIG', b'GET', b'maxmemory'], []), ([b'CONFIG', b'SET', b'maxmemory', N], [3]),
+    ([b'SET', K, b'v', b'KEEPTTL'], []), ([b'SET', K, b'v', b'GET'], []), ([b'SET', K, b'v', b'EX', N, b'KEEPTTL'], [4]),
+    ([b'XREAD', b'COUNT', N, b'BLOCK', N, b'STREAMS', K, b'0'], [2, 4]), ([b'XREADGROUP', b'GROUP', b'g', b'c', b'BLOCK', N, b'STREAMS', K, b'>'], [5]),
+    ([b'XADD', K, b'MAXLEN', N, b'*', b'f', b'v'], [3]), ([b'XTRIM', K, b'MINID', N], [3]), ([b'LASTSAVE'], []), ([b'RANDOMKEY'], []), ([b'KEYS', N], [1]),
+    ([b'HSCAN', K, b'0', b'MATCH', N], [4]), ([b'SRANDMEMBER', K], []), ([b'LPOP', K, N], [2]), ([b'RPOP', K, N], [2]),
+]
+
+# scripts whose return value, error object or redis.call arguments are hostile (none of them loops or asks for gigabytes)
+LUA_HOSTILE = [
+    b"local t={} t[1]=t return t", b"local a={} local b={a} a[1]=b return a", b"local t={} t[1]={t,t} return {t,t}",
+    b"local t={} local r=t for i=1,100000 do local n={} t[1]=n t=n end return r", b"local t={} local r=t for i=1,200 do local n={} t[1]=n t=n end return r",
+    b"local t={} for i=1,200000 do t[i]=i end return t", b"return {1,nil,3}", b"return {[2]=1}", b"return {}", b"return {{},{{}}}",
+    b"return 9007199254740993", b"return -0.0", b"return 0/0", b"return 1/0", b"return -1/0", b"return 2^63", b"return -2^63", b"return 2^64", b"return 1e308",
+    b"return {1e308,-1e308,0/0,2^63}", b"return 3.999999999999999999", b"return string.rep('ab', 500000)", b"return ''", b"return '\\r\\n+OK\\r\\n'",
+    b"return {ok=1}", b"return {ok={}}", b"return {err={}}", b"return {err=1}", b"return {ok='a\\r\\nb'}", b"return {err='a\\r\\nb'}", b"return {ok='x', err='y'}",
+    b"error()", b"error(nil)", b"error({})", b"error({err={}})", b"error(1e308)", b"error(setmetatable({}, {__tostring=function() return 1 end}))",
+    b"error(string.rep('x', 1000000))", b"return function() end", b"return coroutine.create(function() end)", b"return print", b"return redis", b"return _G",
+    b"return redis.call()", b"return redis.pcall()", b"return redis.call(nil)", b"return redis.call(1)", b"return redis.call(true)", b"return redis.call({})",
+    b"return redis.call('PING', nil)", b"return redis.call('SET','K',{})", b"return redis.call('SET','K',true)", b"return redis.call('SET','K',-0.0)",
+    b"return redis.call('SET','K',0/0)", b"return redis.call('SET','K',1e308)", b"return redis.call('EXPIRE','K',2^62)", b"return redis.call('EXPIRE','K',1e308)",
+    b"return redis.call('LRANGE','K',-2^63,2^63)", b"return redis.call('GETRANGE','K',-2^63,2^63)", b"return redis.call('SETRANGE','K',2^40,'x')",
+    b"return redis.call(string.rep('x',100000))", b"return redis.call('GET', string.rep('k',1000000))", b"return redis.call('get\\r\\n','K')",
+    b"return redis.call('', 'K')", b"return redis.call('EVAL','return 1','0')", b"return redis.call('SELECT', 1e308)", b"return redis.call('INCRBY','K',2^63)",
+    b"return redis.call('ZADD','K',0/0,'m')", b"return redis.call('ZADD','K',1/0,'m')", b"return redis.call('ZINCRBY','K',-1/0,'m')",
+    b"return redis.sha1hex()", b"return redis.sha1hex(nil)", b"return redis.sha1hex({})", b"return redis.status_reply()", b"return redis.error_reply()",
+    b"return redis.status_reply({})", b"return redis.error_reply({})", b"redis.log()", b"redis.log(nil, nil)", b"redis.log(1e308, {})",
+    b"return KEYS[0]", b"return ARGV[-1]", b"return KEYS[2^40]", b"KEYS=nil return 1", b"ARGV=1 return ARGV", b"redis=nil return 1", b"redis.call=nil return 1",
+    b"local function f(n) return f(n+1)+1 end return f(1)", b"return string.format('%99d', 1)", b"return string.rep('x', -1)", b"return ('x'):rep(0)",
+    b"return tostring(nil)..tostring({}):sub(1,5)", b"return #ARGV", b"return unpack({})", b"return unpack({1,2,3})", b"return select('#')", b"return tonumber('0x10')",
+    b"return loadstring('return 1')()", b"return loadstring(string.dump(function() return 1 end))()", b"return string.dump(function() end)",
+    b"local s = string.rep('x', 100) return s:rep(100):rep(10)", b"return {string.byte(string.rep('x', 7000), 1, -1)}", b"return math.huge", b"return -math.huge",
+    b"return math.floor(2^53+1)", b"return math.fmod(1,0)", b"return math.random(0)", b"return math.random(2^40)", b"math.randomseed(0/0) return math.random()",
+    b"return table.concat({}, nil)", b"return table.concat({1,{},3})", b"table.sort({3,1,2}, function(a,b) return true end) return 1", b"return #string.rep('x', 2^20)",
+    b"return", b"", b"return return", b"\x00", b"\xff\xfe", b"--", b"return 'unterminated", b"goto x", b"return 1,2,3", b"return nil, 'x'",
+]
+
+
+def script_cases(ctx):
+    """(type-setting command or None, argv) pairs of the script-path enumeration; None, None = probe now."""
+    wrapper = [b'return redis.call(unpack(ARGV))', b'return redis.pcall(unpack(ARGV))']
+    skip = (b'EVAL', b'BLPOP', b'BRPOP', b'MEMORY', b'SLOWLOG', b'CLIENT', b'OBJECT', b'COMMAND', b'PUBLISH')
+    only = [t for t, _ in SCRIPT_ONLY]
+    tmpls = [(t, p) for t, p in CMDS if t[0] not in skip] + SCRIPT_ONLY
+    n = 0
+    for ti, (tmpl, pos) in enumerate(tmpls):
+        values = BOUND if pos else [b'']
+        for yi, ty in enumerate(TYPES):
+            if ctx.quick and pos and tmpl not in only and (ti + yi + ctx.seed) % 3:
+                continue          # quick tier: a third of the (command, type) pairs the direct path already covers in full
+            vs = values if not ctx.quick else [x for i, x in enumerate(values) if i % 3 == n % 3 or len(x) > 18 or x in (b'nan', b'1e308', b'') or x in ANCHOR]
+            first = True
+            for argv in fillings(tmpl, pos, vs):
+                n += 1
+                yield (ty if first else 'same'), [b'EVAL', wrapper[n % 2], b'0'] + argv
+                first = False
+    for src in LUA_HOSTILE:
+        for ty in (TYPES[1], TYPES[2]):
+            yield ty, [b'EVAL', src, b'1', K, b'a1', b'a2']
+            yield None, None
+
+
+def hostile_scripts(ctx, srv, tr, pr, keep_going=False):
+    """The same boundary values through the script path (redis.call parses and executes commands on its own), the commands
+    and options only that path knows, and scripts with hostile return values / error objects / call arguments."""
+    cases = 0
+    cl = None
+    every = 25
+    def one(argv, count=True):
+        nonlocal cl, cases
+        if cl is None or cl.closed:
+            cl = Client(srv.port, timeout=3.0)
+        r = cl.call(argv, 5.0)
+        if count:
+            tr.emit({'k': 'hostile', 'argv': [list(a[:80]) for a in argv], 'r': resp.to_json(r) if r[0] != 'arr' else {'t': 'arr', 'v': []}})
+            cases += 1
+        if r[0] in ('none', 'closed', 'garbage'):
+            cl.close()
+            cl = None
+        if r[0] in ('closed', 'none'):
+            time.sleep(0.1)            # a dying process needs a moment to be reaped
+        if count and (cases % every == 0 or r[0] in ('closed', 'none')) and srv.alive():
+            try:
+                if not pr.probe():
+                    return False
+            except ServerDied:
+                pass
+        if not srv.alive():
+            tr.emit({'k': 'crash', 'status': srv.exit_status(), 'after': [list(a[:80]) for a in argv]})
+            return False
+        return True
+    for ty, argv in script_cases(ctx):
+        if argv is None:
+            pr.probe()
+            continue
+        ok = True
+        if ty != 'same':
+            ok = one([b'DEL', K], False) and (ty is None or one(ty, False))
+        ok = ok and one(argv)
+        if not ok:
+            if not keep_going or pr.wedged:
+                return cases
+            srv.restart()          # triage mode: note the crash, start again, go on with the next input
+            pr.setup()
+            cl = None
+    if cl is not None:
+        cl.close()
+    pr.probe()
+    return cases
+
+
+def shard_of(key):
+    """FNV-1a 64 mod 16: the storage engine's shard of a key (multi-key commands take locks per shard)."""
+    h = 0xcbf29ce484222325
+    for b in key:
+        h ^= b
+        h = (h * 0x100000001b3) & 0xffffffffffffffff
+    return h % 16
+
+
+def multikey_matrix(ctx, srv, tr, pr):
+    """Commands that take several keys (or the same key twice) x the state of each key (live, past its deadline but not yet
+    swept, absent, another type) x shard placement (same shard, different shards, both orders).  A command thread that waits
+    for a lock it already holds, or expires a key under a lock, stops answering: every case must be answered in time."""
+    A = b'mk:a'
+    same = next(b'mk:b%d' % i for i in range(1000) if shard_of(b'mk:b%d' % i) == shard_of(A))
+    other = next(b'mk:c%d' % i for i in range(1000) if shard_of(b'mk:c%d' % i) != shard_of(A))
+    states = {'set': lambda k: [[b'SADD', k, b'x', b'y']], 'expired-set': lambda k: [[b'SADD', k, b'x', b'z'], [b'PEXPIRE', k, b'1']],
+              'expired-string': lambda k: [[b'SET', k, b'v', b'PX', b'1']], 'expired-list': lambda k: [[b'RPUSH', k, b'e'], [b'PEXPIRE', k, b'1']],
+              'absent': lambda k: [], 'string': lambda k: [[b'SET', k, b'10']], 'list': lambda k: [[b'RPUSH', k, b'a', b'b']]}
+    def cmds(x, y):
+        return [[b'SINTER', x, y], [b'SUNION', x, y], [b'SDIFF', x, y], [b'SINTER', y, x, y], [b'RENAME', x, y], [b'RENAMENX', x, y],
+                [b'MSET', x, b'1', y, b'2'], [b'MGET', x, y], [b'DEL', x, y], [b'EXISTS', x, y, x], [b'BLPOP', x, y, b'0.01'], [b'BRPOP', y, x, b'0.01'],
+                [b'WATCH', x, y], [b'EVAL', b"return redis.call('SINTER', KEYS[1], KEYS[2])", b'2', x, y],
+                [b'EVAL', b"return redis.call('RENAME', KEYS[1], KEYS[2])", b'2', x, y], [b'EVAL', b"redis.call('LPUSH', KEYS[2], 'v') return redis.call('SUNION', KEYS[1], KEYS[2])", b'2', x, y],
+                [b'SINTER', x, x], [b'SDIFF', x, x], [b'RENAME', x, x], [b'RENAMENX', x, x], [b'MSET', x, b'1', x, b'2'], [b'DEL', x, x], [b'BLPOP', x, x, b'0.01']]
+    cases = 0
+    cl = None
+    names = list(states)
+    for (k1, k2) in ((A, same), (same, A), (A, other), (other, A)):
+        for i1, s1 in enumerate(names):
+            for i2, s2 in enumerate(names):
+                if ctx.quick and 'expired' not in s1 + s2 and (i1 + i2 + ctx.seed) % 2:
+                    continue
+                for ci, argv in enumerate(cmds(k1, k2)):
+                    if ctx.quick and (ci + i1 + i2) % 2 and argv[0] not in (b'SINTER', b'SUNION', b'SDIFF', b'RENAME', b'EVAL'):
+                        continue
+                    if cl is None or cl.closed:
+                        cl = Client(srv.port, timeout=3.0)
+                    cl.call([b'DEL', k1, k2], 3.0)
+                    for a in states[s1](k1) + states[s2](k2):
+                        cl.call(a, 3.0)
+                    if 'expired' in s1 + s2:
+                        time.sleep(0.003)
+                    r = cl.call(argv, 3.0)
+                    tr.emit({'k': 'hostile', 'argv': [list(a[:80]) for a in argv], 'r': resp.to_json(r) if r[0] != 'arr' else {'t': 'arr', 'v': []},
+                             'states': [s1, s2]})
+                    cases += 1
+                    if r[0] in ('none', 'closed', 'garbage'):
+                        cl.close()
+                        cl = None
+                        time.sleep(0.1)
+                    if cases % 40 == 0 or r[0] in ('closed', 'none'):
+                        try:
+                            if not pr.probe():
+                                return cases
+                        except ServerDied:
+                            pass
+                    if not srv.alive():
+                        tr.emit({'k': 'crash', 'status': srv.exit_status(), 'after': [list(a[:80]) for a in argv]})
+                        return cases
+    if cl is not None:
+        cl.close()
     pr.probe()
     return cases
 
@@ -177,6 +370,7 @@ def hostile_frames(ctx, srv, tr, pr):
             tr.emit({'k': 'hostile', 'raw': len(batch), 'first': list(batch[0][:40]), 'last': list(batch[-1][:40])})
             pr.probe()
             del batch[:]
+        return not pr.wedged
     for n in range(1, maxlen + 1):
         for tup in itertools.product(ALPHA, repeat=n):
             data = b''.join(tup)
@@ -187,7 +381,8 @@ def hostile_frames(ctx, srv, tr, pr):
                 if not srv.alive():
                     tr.emit({'k': 'crash', 'status': srv.exit_status(), 'among': [list(x) for x in batch[-5:]]})
                     return cases
-                flush()
+                if not flush():
+                    return cases
     flush()
     special = [b'*3000000000\r\n', b'*9223372036854775807\r\n', b'$9223372036854775807\r\n', b'$-2\r\n', b'*-2\r\n', b'%99999999999\r\n',
                b'~18446744073709551615\r\n', b'*1\r\n' * 100000, b'*1\r\n' * 200 + b'$4\r\nPING\r\n', b'%1\r\n+k\r\n' * 50000,
@@ -199,7 +394,8 @@ def hostile_frames(ctx, srv, tr, pr):
         send_raw(srv, data, 0.05)
         tr.emit({'k': 'hostile', 'raw': 1, 'first': list(data[:60]), 'len': len(data)})
         cases += 1
-        pr.probe()
+        if not pr.probe():
+            return cases
         if not srv.alive():
             tr.emit({'k': 'crash', 'status': srv.exit_status(), 'after_raw': list(data[:60])})
             return cases
@@ -214,7 +410,15 @@ def run(ctx):
     try:
         pr.setup()
         n += hostile_commands(ctx, srv, tr, pr)
-        if srv.alive():
+        if srv.alive() and not pr.wedged:
+            ns = hostile_scripts(ctx, srv, tr, pr)
+            ctx.extra_cov['script_cases'] = ns
+            n += ns
+        if srv.alive() and not pr.wedged:
+            nm = multikey_matrix(ctx, srv, tr, pr)
+            ctx.extra_cov['multikey_cases'] = nm
+            n += nm
+        if srv.alive() and not pr.wedged:
             n += hostile_frames(ctx, srv, tr, pr)
     except (ServerDied, OSError):
         if not srv.alive():
